@@ -213,7 +213,7 @@ def vacuity_guard(rep, obls):
         k = tuple(h.get_id() for h in o.hyps)
         if k in memo:
             return memo[k]
-        s = z3.Solver(); s.set('timeout', 400)
+        s = z3.Solver(); s.set('timeout', 1500)
         s.add([h for h in o.hyps if not _has_q(h)])
         r = s.check()
         if r != z3.unsat:
